@@ -33,6 +33,10 @@ SEEDS = [
 ]
 
 NEAR_VALID = {
+    'macro_doubling': '#define A A A\nchar A;\n',
+    'macro_doubling_indirect': '#define A B B\n#define B A A\nchar x; A\n',
+    'macro_doubling_call': '#define F(x) F(x) F(x)\nchar c; F(1)\n',
+    'macro_growth_args': '#define G(x) x x x x x x x x\nchar c; G(G(G(G(G(G(G(1)))))))\n',
     'continue_in_switch': 'unsigned char a; void main() { switch (a) { case 1: if (Y) continue; a = 2; } }',
     'continue_in_switch2': 'unsigned char a; void main() { switch (a) { case 1: continue; } }',
     'break_in_if': 'unsigned char a; void main() { if (a) break; }',
